@@ -379,7 +379,7 @@ func runHistory(hc histCase) {
 			run.Count("ref:memory-store")
 		}
 	}
-	var results, digests []string
+	var results, digests, byteSums []string
 	var modelOps []string
 	finalCanon := canonDoc(initDoc)
 	nontrivial := false
@@ -532,6 +532,14 @@ func runHistory(hc histCase) {
 		}
 		finalCanon = canonDoc(doc)
 		digests = append(digests, md5hex(finalCanon))
+		// the exact bytes of the file (model: Model/JsonDoc.v render_file)
+		if raw, err := os.ReadFile(path); err != nil {
+			byteSums = append(byteSums, "absent")
+		} else if hc.Init != nil && string(raw) == *hc.Init {
+			byteSums = append(byteSums, "orig")
+		} else {
+			byteSums = append(byteSums, md5hex(string(raw)))
+		}
 		// the exact bytes Put wrote for its entry (json.Marshal(AuthConfig), re-indented by
 		// MarshalIndent): compared with the model's entry_bytes
 		if o.Op == "P" && lastPut[o.Addr] != nil && *lastPut[o.Addr] == o && doc != nil && doc.k == jObj {
@@ -674,8 +682,23 @@ func runHistory(hc histCase) {
 		if hc.DisablePut {
 			line += " DP 1"
 		}
-		obs := fmt.Sprintf("RES %s FILES %s FINAL %s MODE %s", strings.Join(results, " "), strings.Join(digests, " "), finalCanon, finalMode)
+		// source texts of the values the library does not interpret (what json.RawMessage holds)
+		var srcT, srcE []string
+		if initDoc != nil && initDoc.k == jObj {
+			for _, kv := range initDoc.obj {
+				srcT = append(srcT, common.Hex(goString(kv.key))+" "+common.Hex(kv.val.src))
+				if kv.key == "auths" && kv.val.k == jObj {
+					for _, e := range kv.val.obj {
+						srcE = append(srcE, common.Hex(goString(e.key))+" "+common.Hex(e.val.src))
+					}
+				}
+			}
+		}
+		line += fmt.Sprintf(" SRC %d %s %d %s", len(srcT), strings.Join(srcT, " "), len(srcE), strings.Join(srcE, " "))
+		line = strings.Join(strings.Fields(line), " ")
+		obs := fmt.Sprintf("RES %s FILES %s FINAL %s MODE %s BYTES %s", strings.Join(results, " "), strings.Join(digests, " "), finalCanon, finalMode, strings.Join(byteSums, " "))
 		run.Case(id, line, obs)
+		run.Count("file-bytes:histories-compared")
 	} else {
 		run.Count("unjudged:case-variant-field")
 		run.Evaluations++
